@@ -456,6 +456,15 @@ func mergeSub(m, s *explore.SubStats) {
 	m.Skipped += s.Skipped
 	m.Nontrivial += s.Nontrivial
 	m.ViolationCount += s.ViolationCount
+	if m.Outcomes == nil {
+		m.Outcomes = map[string]int64{}
+	}
+	if m.Max == nil {
+		m.Max = map[string]int64{}
+	}
+	if m.Extra == nil {
+		m.Extra = map[string]any{}
+	}
 	for k, v := range s.Outcomes {
 		m.Outcomes[k] += v
 	}
